@@ -5,6 +5,9 @@ package vharness
 import "fmt"
 
 func init() {
+	registry["C02"] = runC02
+	registry["C04"] = runC04
+	registry["C18"] = runC18
 	registry["C01"] = runC01
 	registry["C03"] = runC03
 	registry["C05"] = runC05
@@ -37,12 +40,15 @@ var dispatchFuncs = []string{"processNextJob", "sendToNextChannel", "freePoolNod
 func runC01(c *RunCtx) {
 	richPrograms(c, "rich", 48, 240, richBias{MaxJobs: 8, Cancel: 20, Purge: 15, Script: 4, Batches: 30, Waiters: 1, Expiry: 35},
 		ExploreOpts{Base: 3, K: c.Q(2, 4), Funcs: anchoredOr(c, dispatchFuncs), Pairs: c.Q(20, 120), MaxCases: c.Q(200, 4000)})
+	reaperPrograms(c, 32, 160)
 	runC01Burst(c)
 }
 
 func runC03(c *RunCtx) {
 	richPrograms(c, "rich", 48, 240, richBias{MaxJobs: 8, Cancel: 25, Purge: 10, Script: 3, Batches: 20, Waiters: 0, Outcomes: true, Expiry: 40},
 		ExploreOpts{Base: 3, K: c.Q(2, 4), Funcs: anchoredOr(c, dispatchFuncs), Pairs: c.Q(20, 120), MaxCases: c.Q(200, 4000)})
+	gatePrograms(c, "gate", 32, 160, gateBias{Adapters: true, MaxOps: 12, Expiry: 30, Tune: true, Life: true}, gateOpts(c))
+	reaperPrograms(c, 32, 160)
 }
 
 func runC05(c *RunCtx) {
@@ -68,6 +74,38 @@ func runC16(c *RunCtx) {
 func runC17(c *RunCtx) {
 	richPrograms(c, "rich", 48, 240, richBias{MaxJobs: 8, Cancel: 20, Purge: 20, Script: 3, Batches: 30, Waiters: 0, Samplers: true, Outcomes: true, Expiry: 20},
 		ExploreOpts{Base: 3, K: c.Q(2, 4), Funcs: anchoredOr(c, append([]string{"Len", "Manager"}, dispatchFuncs...)), Pairs: c.Q(20, 120), MaxCases: c.Q(200, 4000)})
+	richPrograms(c, "restarts", 32, 160, richBias{MaxJobs: 8, Cancel: 0, Purge: 0, Script: 8, Batches: 0, Waiters: 0, Samplers: true, Expiry: 0, Conc: []int{1, 1, 2, 3}, RestartHeavy: true},
+		ExploreOpts{Base: 3, K: c.Q(3, 6), Funcs: anchoredOr(c, []string{"goEventLoop", "processNextJob", "Restart", "Stop", "start", "closeChannels"}), Pairs: c.Q(30, 150), MaxCases: c.Q(200, 3000)})
+	gatePrograms(c, "gate", 32, 160, gateBias{Adapters: true, MaxOps: 12, Expiry: 10, Tune: true, Life: true}, gateOpts(c))
+	lenPrograms(c, 16, 64)
 }
 
 func runC01Burst(c *RunCtx) {}
+
+func gatePrograms(c *RunCtx, fam string, nq, nt int, b gateBias, o ExploreOpts) {
+	for v := 0; v < c.Q(nq, nt); v++ {
+		c.Program(fmt.Sprintf("%s/%d", fam, v), func(p *Prog) {
+			cfg := drawGate(p.Rng, b)
+			p.Explore(func(pl Plan) *Result { return epGate(c, cfg) }, o)
+		})
+	}
+}
+
+func gateOpts(c *RunCtx) ExploreOpts {
+	return ExploreOpts{Base: 2, K: c.Q(2, 4), Funcs: anchoredOr(c, dispatchFuncs), Pairs: c.Q(15, 100), MaxCases: c.Q(150, 4000)}
+}
+
+func runC02(c *RunCtx) {
+	richPrograms(c, "restarts", 32, 160, richBias{MaxJobs: 8, Cancel: 0, Purge: 0, Script: 8, Batches: 0, Waiters: 0, Samplers: false, Expiry: 0, Conc: []int{1, 1, 2, 3}, RestartHeavy: true},
+		ExploreOpts{Base: 3, K: c.Q(3, 6), Funcs: anchoredOr(c, []string{"goEventLoop", "processNextJob", "Restart", "Stop", "start", "closeChannels"}), Pairs: c.Q(30, 150), MaxCases: c.Q(200, 3000)})
+	gatePrograms(c, "gate", 48, 240, gateBias{Adapters: true, MaxOps: 14, Expiry: 20, Tune: true, Life: true}, gateOpts(c))
+}
+
+func runC04(c *RunCtx) {
+	gatePrograms(c, "gate", 32, 160, gateBias{Adapters: true, MaxOps: 16, Expiry: 0, Tune: false, Life: true}, gateOpts(c))
+}
+
+func runC18(c *RunCtx) {
+	gatePrograms(c, "gate", 48, 240, gateBias{Adapters: false, MaxOps: 14, Expiry: 60, Tune: true, Life: true}, gateOpts(c))
+	reaperPrograms(c, 32, 160)
+}
